@@ -49,6 +49,10 @@ type VerifC13Conc struct {
 	Readers   int `json:"readers"`
 	Asserters int `json:"asserters"`
 	Iters     int `json:"iters"`
+	// burst family (Rounds > 0): per round K goroutines introduce the SAME new namespace while one goroutine
+	// introduces a stream of other namespaces, then K goroutines introduce K DIFFERENT new namespaces
+	K      int `json:"k"`
+	Rounds int `json:"rounds"`
 }
 
 type VerifC13Case struct {
@@ -378,6 +382,13 @@ func verifC13ConcParent(c VerifC13Case, dir string) VerifC13Obs {
 			return VerifC13Obs{Outcome: "ok", Conc: "survived"}
 		}
 		e := stderr.String()
+		if i := strings.Index(e, "inconsistent answers:"); i >= 0 {
+			d := e[i:]
+			if len(d) > 500 {
+				d = d[:500]
+			}
+			return VerifC13Obs{Outcome: "ok", Conc: "inconsistent", Detail: strings.TrimSpace(d)}
+		}
 		// the live map is read by a serialiser while an asserter writes it: either Go's detector fires
 		// ("fatal error: concurrent map ...") or encoding/json's map encoder trips over the map that grew
 		// under it (index out of range in mapEncoder.encode)
@@ -409,6 +420,10 @@ func verifC13ConcParent(c VerifC13Case, dir string) VerifC13Obs {
 // readers fetch the global context and serialise it, expand and compact.  Every answer is checked
 // for consistency; the process prints @@CONC-SURVIVED at the end.
 func VerifC13ConcChild(c VerifC13Case, dir string) {
+	if c.Conc.Rounds > 0 {
+		verifC13BurstChild(c, dir)
+		return
+	}
 	_ = os.RemoveAll(dir)
 	s, dsm := verifC13Open(dir)
 	for _, d := range c.Dss {
@@ -490,6 +505,173 @@ func VerifC13ConcChild(c VerifC13Case, dir string) {
 	}
 	if len(d.U2I) != len(d.I2U) || len(d.P2E) != len(d.E2P) {
 		fail("index sizes differ")
+	}
+	_ = s.Close()
+	_ = os.RemoveAll(dir)
+	if len(bad) > 0 {
+		fmt.Fprintln(os.Stderr, "inconsistent answers:", bad[0], "(", len(bad), ")")
+		os.Exit(3)
+	}
+	fmt.Println("@@CONC-SURVIVED")
+}
+
+// ---- bounded concurrent bursts on the namespace manager ----
+// Only schedule-independent facts are checked: (a) all callers introducing the same namespace get the same
+// CURIE and it expands back; (b) the live maps are mutually inverse and contain every handed-out pair;
+// (c) the persisted state object (exactly what Open would load) contains every handed-out pair once all
+// callers have their answers; (d) after Close + NewStore every handed-out pair is still there and a brand
+// new namespace gets a prefix nobody was given before.
+func verifC13BurstChild(c VerifC13Case, dir string) {
+	_ = os.RemoveAll(dir)
+	s, dsm := verifC13Open(dir)
+	_ = dsm
+	var mu sync.Mutex
+	handed := map[string]string{} // prefix -> expansion, every pair any caller was given
+	bad := []string{}
+	fail := func(m string) { mu.Lock(); bad = append(bad, m); mu.Unlock() }
+	give := func(prefix, exp string) {
+		mu.Lock()
+		defer mu.Unlock()
+		if old, ok := handed[prefix]; ok && old != exp {
+			bad = append(bad, fmt.Sprintf("prefix %s handed out for %s and for %s", prefix, old, exp))
+		}
+		handed[prefix] = exp
+	}
+	compact := func(uri, exp string) string {
+		curie, err := s.GetNamespacedIdentifierFromURI(uri)
+		if err != nil {
+			fail("compact: " + err.Error())
+			return ""
+		}
+		i := strings.Index(curie, ":")
+		if i < 0 {
+			fail("not a curie: " + curie)
+			return ""
+		}
+		give(curie[:i], exp)
+		if back, err := s.ExpandCurie(curie); err != nil || back != uri {
+			fail("roundtrip " + uri + " -> " + curie + " -> " + back)
+		}
+		return curie
+	}
+	checkLive := func(when string) {
+		s.NamespaceManager.lock.Lock()
+		p2e := verifPairs(s.NamespaceManager.prefixToExpansionMapping)
+		e2p := map[string]string{}
+		for k, v := range s.NamespaceManager.expansionToPrefixMapping {
+			e2p[k] = v
+		}
+		s.NamespaceManager.lock.Unlock()
+		if len(p2e) != len(e2p) {
+			fail(fmt.Sprintf("%s: %d prefixes for %d expansions", when, len(p2e), len(e2p)))
+		}
+		live := map[string]string{}
+		for _, pe := range p2e {
+			live[pe[0]] = pe[1]
+			if e2p[pe[1]] != pe[0] {
+				fail(fmt.Sprintf("%s: prefix %s -> %s but that expansion maps back to %q", when, pe[0], pe[1], e2p[pe[1]]))
+			}
+		}
+		mu.Lock()
+		for p, e := range handed {
+			if live[p] != e {
+				bad = append(bad, fmt.Sprintf("%s: handed-out %s = %s is now %q", when, p, e, live[p]))
+			}
+		}
+		mu.Unlock()
+	}
+	checkPersisted := func(when string) {
+		st := &NamespacesState{}
+		if err := s.GetObject(NamespacesIndex, "namespacestate", st); err != nil {
+			fail("persisted state unreadable: " + err.Error())
+			return
+		}
+		mu.Lock()
+		for p, e := range handed {
+			if st.PrefixToExpansionMapping[p] != e || st.ExpansionToPrefixMapping[e] != p {
+				bad = append(bad, fmt.Sprintf("%s: handed-out %s = %s is not in the persisted state (a restart now loses it)", when, p, e))
+				break
+			}
+		}
+		mu.Unlock()
+	}
+	bgN := 0
+	for r := 0; r < c.Conc.Rounds && len(bad) == 0; r++ {
+		// phase A: the same new namespace from K callers while another request stream holds the write lock
+		stop := make(chan struct{})
+		var bg sync.WaitGroup
+		bg.Add(1)
+		go func() {
+			defer bg.Done()
+			for {
+				select {
+				case <-stop:
+					return
+				default:
+				}
+				bgN++
+				exp := fmt.Sprintf("http://burst.example/bg/%d/", bgN)
+				compact(exp+"x", exp)
+			}
+		}()
+		var wg sync.WaitGroup
+		start := make(chan struct{})
+		same := fmt.Sprintf("http://burst.example/same/%d/", r)
+		got := make([]string, c.Conc.K)
+		for i := 0; i < c.Conc.K; i++ {
+			wg.Add(1)
+			go func(i int) {
+				defer wg.Done()
+				<-start
+				got[i] = compact(same+"item", same)
+			}(i)
+		}
+		time.Sleep(200 * time.Microsecond) // let the background stream get going
+		close(start)
+		wg.Wait()
+		close(stop)
+		bg.Wait()
+		for i := 1; i < len(got); i++ {
+			if got[i] != got[0] {
+				fail(fmt.Sprintf("round %d: the same URI was compacted to %s and to %s by concurrent callers", r, got[0], got[i]))
+				break
+			}
+		}
+		// phase B: K different new namespaces at once, nothing afterwards
+		start2 := make(chan struct{})
+		for i := 0; i < c.Conc.K; i++ {
+			wg.Add(1)
+			go func(i int) {
+				defer wg.Done()
+				<-start2
+				exp := fmt.Sprintf("http://burst.example/diff/%d/%d/", r, i)
+				compact(exp+"item", exp)
+			}(i)
+		}
+		close(start2)
+		wg.Wait()
+		when := fmt.Sprintf("round %d", r)
+		checkLive(when)
+		checkPersisted(when)
+		if len(bad) == 0 && (r%6 == 5 || r == c.Conc.Rounds-1) {
+			if err := s.Close(); err != nil {
+				fail("close: " + err.Error())
+				break
+			}
+			s, _ = verifC13Open(dir)
+			checkLive(when + " after restart")
+			exp := fmt.Sprintf("http://burst.example/fresh/%d/", r)
+			mu.Lock()
+			n := len(handed)
+			mu.Unlock()
+			curie := compact(exp+"x", exp)
+			mu.Lock()
+			if len(handed) != n+1 {
+				bad = append(bad, fmt.Sprintf("%s after restart: the new namespace %s was given %s, a prefix handed out before", when, exp, curie))
+			}
+			mu.Unlock()
+			checkLive(when + " after restart+assert")
+		}
 	}
 	_ = s.Close()
 	_ = os.RemoveAll(dir)
